@@ -165,8 +165,8 @@ def RunSound (hashOf : List β → H) (g : List (LBackupF β F)) (mask : List Bo
 
 /-- The logical backup a run produces has exactly the manifest the deduplication model computes. -/
 theorem recsD_runL (hashOf : List β → H) (g : List (LBackupF β F)) (mask : List Bool) (name : String)
-    (es : List (Entry β)) (fpf : String → F) (hs : RunSound hashOf g mask es fpf) :
-    recsD hashOf (runL hashOf g mask name es fpf) =
+    (es : List (Entry β)) (fpf : String → F) (pad : String → List β) (hs : RunSound hashOf g mask es fpf) :
+    recsD hashOf (runL hashOf g mask name es fpf pad) =
       records (runBackup (hashOf []) (view (g.map (recsD hashOf)) mask) (eventsOf hashOf fpf es)) := by
   have hnd : ((eventsOf hashOf fpf es).map (·.path)).Nodup := by
     have := events_paths hashOf fpf (⟨name, es, fun _ => true, fun _ => []⟩ : LBackup β)
@@ -185,14 +185,14 @@ def InvL (hashOf : List β → H) (st : LStore β F) : Prop :=
   ∀ g ∈ st, (∀ b ∈ g, WFArchive b.lb.es) ∧ Resolvable (g.map (recsD hashOf))
 
 def OpSoundL (hashOf : List β → H) (st : LStore β F) : LOp β F → Prop
-  | .run _ es fpf mask newGroup =>
+  | .run _ es fpf mask newGroup _ =>
     match st.getLast?, newGroup with
     | some g, false => RunSound hashOf g mask es fpf
     | _, _ => RunSound hashOf ([] : List (LBackupF β F)) [] es fpf
   | .deleteGroups _ => True
 
 theorem runL_es (hashOf : List β → H) (g : List (LBackupF β F)) (mask : List Bool) (name : String)
-    (es : List (Entry β)) (fpf : String → F) : (runL hashOf g mask name es fpf).lb.es = es := rfl
+    (es : List (Entry β)) (fpf : String → F) (pad : String → List β) : (runL hashOf g mask name es fpf pad).lb.es = es := rfl
 
 theorem stepL_inv (hashOf : List β → H) (st : LStore β F) (op : LOp β F) (hi : InvL hashOf st) (hs : OpSoundL hashOf st op) :
     InvL hashOf (stepL hashOf st op) := by
@@ -200,10 +200,10 @@ theorem stepL_inv (hashOf : List β → H) (st : LStore β F) (op : LOp β F) (h
   | deleteGroups keep =>
     intro g hg
     exact hi g (keepMasked_sub st keep g hg)
-  | run name es fpf mask newGroup =>
+  | run name es fpf mask newGroup pad =>
     have hfresh : ∀ (hs' : RunSound hashOf ([] : List (LBackupF β F)) [] es fpf),
-        (∀ b ∈ [runL hashOf ([] : List (LBackupF β F)) [] name es fpf], WFArchive b.lb.es) ∧
-        Resolvable ([runL hashOf ([] : List (LBackupF β F)) [] name es fpf].map (recsD hashOf)) := by
+        (∀ b ∈ [runL hashOf ([] : List (LBackupF β F)) [] name es fpf pad], WFArchive b.lb.es) ∧
+        Resolvable ([runL hashOf ([] : List (LBackupF β F)) [] name es fpf pad].map (recsD hashOf)) := by
       intro hs'
       refine ⟨?_, ?_⟩
       · intro b hb
@@ -211,7 +211,7 @@ theorem stepL_inv (hashOf : List β → H) (st : LStore β F) (op : LOp β F) (h
         subst hb
         exact hs'.1
       · simp only [List.map_cons, List.map_nil]
-        rw [recsD_runL hashOf [] [] name es fpf hs']
+        rw [recsD_runL hashOf [] [] name es fpf pad hs']
         simpa [view] using new_group_fresh (hashOf []) (eventsOf hashOf fpf es)
     unfold stepL
     unfold OpSoundL at hs
@@ -250,7 +250,7 @@ theorem stepL_inv (hashOf : List β → H) (st : LStore β F) (op : LOp β F) (h
               subst h'
               exact hs.1
           · simp only [List.map_append, List.map_cons, List.map_nil]
-            rw [recsD_runL hashOf glast mask name es fpf hs]
+            rw [recsD_runL hashOf glast mask name es fpf pad hs]
             apply resolvable_run (hashOf []) (glast.map (recsD hashOf)) mask (eventsOf hashOf fpf es) hres
             intro l hlast e he r hr hfp
             obtain ⟨ent, hent, hev⟩ := List.mem_filterMap.mp he
